@@ -89,6 +89,68 @@ CHECKS = {
         "Trusts Hypothesis generation and the harness's reading of Folder.files/deleted_files; names are drawn from a "
         "pool of 3 folders x 3 files; one host.",
     ),
+    "C06": (
+        "three-run differential PBT (attack vs idle vs unblocked control) on generated topologies x complete blocks x attack "
+        "schedules, plus a per-frame denied-frame monitor",
+        "For generated LAN/routed/DMZ topologies a complete block is placed on the cut between attacker and victim (10 ACL rule "
+        "shapes on routers and on each firewall list, disabled NIC/port, absent link, powered-off device; from the file, by "
+        "request, or after an unblocked prefix) and a generated attack schedule runs on the attacker; the victim's normalised "
+        "state plus ARP cache, sessions, connections and counters must equal those of a run in which the attacker idles, at "
+        "every step; wrappers check that a frame a router/firewall ACL denied is never sent on or handed to its own software; "
+        "a control run without the block shows the attack is effective (vacuity guard). Exploration over 46 strata.",
+        "Topologies are trees of <=3 routing devices; harness entropy and RNG are pinned identically in the three runs; "
+        "exceptions inside an attack op end the case (they belong to C01/C05).",
+    ),
+    "C10": (
+        "exhaustive enumeration of reward-sharing digraphs x declaration orders (load-time) + PBT over reward configs and "
+        "histories with recorded component values (run-time) + declaration-order metamorphic relation",
+        "Load-time: every sharing digraph incl. self-loops on <=3 agents under every declaration order (quick), all 4096 "
+        "loop-free digraphs on 4 agents under 8 orders each and with one self-loop (thorough): from_config raises iff an "
+        "independent closure test says cyclic, otherwise the evaluation order puts dependencies first. Run-time: generated "
+        "reward configurations over all 7 shipped component types; observe-only wrappers record each component's value; per "
+        "step current_reward == sum(w*v), shared rewards equal the target's same-step reward, totals equal the sum of history "
+        "rewards, env.step returns the RL agent's current reward, a sticky reference model for the three sticky components, and "
+        "permuting the declaration order of non-interacting agents leaves reward sequences unchanged. Exploration with an "
+        "exhaustive finite part.",
+        "Probabilistic agents' RNG is replaced by a scripted choice (any sequence is a possible draw); relative tolerance 1e-9.",
+    ),
+    "C16": (
+        "model-based stateful PBT: account/login/remote-command/time-out/power sequences vs a reference session model; "
+        "bounded-exhaustive over a reduced alphabet",
+        "2-3 hosts; every sequence to depth 3 (quick) / 4 (thorough) over a 15/18-symbol alphabet after four prefixes, and "
+        "Hypothesis sequences to depth 30, all formed by the agent actions' form_request. A reference model of accounts and "
+        "remote sessions (limit 3, inactivity time-out 3-5) decides which logins must succeed/fail and which sessions are "
+        "open after every op and tick; a remote command's EFFECT (a uniquely named folder on the target) must occur only on "
+        "a live session - never after logout, time-out or password change; an enabled admin always remains. Exploration with "
+        "an exhaustive finite part.",
+        "Power and terminal state are read, not modelled; exactly-T-steps-old sessions may be open or closed (docs leave the "
+        "convention open).",
+    ),
+    "C17": (
+        "model-based stateful PBT: connect/query/backup/restore/lifecycle/block sequences vs a reference database model; "
+        "bounded-exhaustive over a reduced alphabet",
+        "Client host(s), database server and FTP backup host (one LAN or routed with an ACL), max_sessions 1/2/3/100. All "
+        "sequences of depth 3 over a 14/25-symbol alphabet after 2-3 preludes plus Hypothesis sequences to depth 30. The model "
+        "(password, open connection ids, file health, health at backup time, path blocks) decides: connect succeeds iff right "
+        "password, service running, node on, path open and room; a query runs iff its connection id is issued and open "
+        "(live, cloned and never-issued handles are tried); DELETE => COMPROMISED, ENCRYPT => CORRUPT, SELECT on compromised "
+        "data fails; restoring a good backup gives GOOD; while stopped/off/blocked nothing succeeds and the server's "
+        "normalised state does not change. Exploration with an exhaustive finite part.",
+        "Lifecycle/power/health-flag state machines are read from the simulation (C12-C14 own them); wide links keep C18 out.",
+    ),
+    "C20": (
+        "differential PBT: independent inventory derived from the scenario dict vs inventory read from the built object graph "
+        "(both directions); re-serialised YAML (shuffled mapping keys, style) vs original: state and trajectory equality",
+        "All 31 loadable shipped scenarios, every episode of the three schedule folders, and generated scenarios with a "
+        "291-entry alphabet of single documented-key edits (+67 combinations) are loaded; vlib/ref_config.py derives the expected "
+        "nodes, interfaces, links/bandwidths, routes, ACL rules at positions, software and options (one instance per name), "
+        "users, folders/files, defaults-block effects and agents from the dict alone and compares them with what "
+        "vlib/c20_read.py reads from the PrimaiteGame objects; the same scenario written with permuted mapping keys / other "
+        "YAML styles must give the same normalised initial state and the same seeded trajectory. Exploration; exhaustive "
+        "over shipped files.",
+        "Expected inventory follows docs/source/configuration and, where docs are silent, the keys the shipped files use; "
+        "the undocumented defaults block is read as 'applies where an item has no value of its own'.",
+    ),
     "C18": (
         "PBT over topologies x link bandwidths x traffic patterns with an independent per-tick per-link accounting monitor",
         "Generated LAN/two-switch/routed/wireless topologies with bandwidths from {default, huge, k x one frame} carry generated "
